@@ -107,6 +107,8 @@ def parseOp : List String → Option Op
   | ["addSamples", n, v] => do pure (.addSamples (← n.toInt?) (← parseOQ? v))
   | ["delSample", i] => do pure (.delSample (← i.toInt?))
   | ["setArray", i, u, v] => do pure (.setArray (← i.toInt?) (← u.toInt?) (← parseOQ? v))
+  | ["setRow", i, vs] => do pure (.setRow (← i.toInt?) (← parseOQs? vs))
+  | ["getRow", i, vs] => do pure (.getRow (← i.toInt?) (← parseOQs? vs))
   | _ => none
 
 def splitOnTok (sep : String) (toks : List String) : List (List String) :=
@@ -114,6 +116,10 @@ def splitOnTok (sep : String) (toks : List String) : List (List String) :=
     | [] => (cur.reverse :: acc).reverse
     | t :: ts => if t = sep then go [] (cur.reverse :: acc) ts else go (t :: cur) acc ts
   go [] [] toks
+
+def rowOf (s : State) : Op → List Val
+  | .getRow i _ => readRow s i
+  | _ => []
 
 def sameState (a b : State) : Bool :=
   a.nech == b.nech && a.nextUid == b.nextUid && a.uids == b.uids && a.names == b.names &&
@@ -148,6 +154,11 @@ def runHistory (grid : Bool) (s0 : State) : Nat → List (List String) → Strin
             -- names are regular expressions in every by-name access: `a.1` also designates `a-1`
             let cause := if o.idx == si.names.map (colOfName si) then " cause=name-taken-as-regular-expression" else ""
             s!"bad step={k + 1} op={opText} inv=I5-name-designates-another-column{cause}"
+          else if (match written s0 op with | some w => !(frameOk s0 si w) | none => false) then
+            -- direct oracle on two successive implementation states (`s0` was checked equal to the previous one)
+            s!"bad step={k + 1} op={opText} inv=I6-untouched-cells-or-written-value"
+          else if (match op with | .getRow i seen => readRow s0 i != seen | _ => false) then
+            s!"diff step={k + 1} op={opText} model-row: {(rowOf s0 op).map fun (v : Val) => (v.map fmtRat).getD "NA"}"
           else if sameState sm si then runHistory grid sm (k + 1) rest
           else s!"diff step={k + 1} op={opText} model: {describe sm}"
       | _, _ => "bad-op"
